@@ -222,6 +222,15 @@ func TestReplay_Q(t *testing.T) {
 			verifkit.ReportReplay(rf, out.Failure)
 		}
 	}
+	for _, rf := range verifkit.ReplayFiles("TestProp_C01_StoreCrash") {
+		var c C01Case
+		if err := json.Unmarshal(rf.Case, &c); err != nil {
+			fmt.Printf("REPLAY-ERROR file=%s err=%v\n", rf.Path, err)
+			continue
+		}
+		out := runC01Store(c, false)
+		verifkit.ReportReplay(rf, out.Failure)
+	}
 	for _, rf := range verifkit.ReplayFiles("TestProp_C13_LockStep") {
 		var c QCase
 		if err := json.Unmarshal(rf.Case, &c); err != nil {
